@@ -153,6 +153,26 @@ CORPUS = [
     {"Opts": {"InitialNs": 40 * MS, "MaxNs": 40 * MS, "MultNum": 1, "MultDen": 1, "RandNum": 1, "RandDen": 20, "MaxRetries": 0},
      "UseCloser": True, "StartClosed": False, "StartCancelled": False, "flavour": "next",
      "Ops": [{"K": "n", "Us": 0}, {"K": "nx", "Us": 1000}, {"K": "n", "Us": 0}, {"K": "r", "Us": 0}, {"K": "n", "Us": 0}]},
+    # "never": InitialBackoff = MaxBackoff = MaxInt64 ns with the default 15 % jitter; the upper half of the band is beyond
+    # int64 (before the clamp in retryIn the conversion wrapped negative and the attempt came at once, 1 draw in 2)
+    {"Opts": {"InitialNs": (1 << 63) - 1, "MaxNs": (1 << 63) - 1, "MultNum": 2, "MultDen": 1, "RandNum": 0, "RandDen": 1, "MaxRetries": 0},
+     "UseCloser": True, "StartClosed": False, "StartCancelled": False, "flavour": "next",
+     "Ops": [{"K": "n", "Us": 0}, {"K": "nx", "Us": 30000}, {"K": "n", "Us": 0}]},
+    {"Opts": {"InitialNs": (1 << 63) - 1, "MaxNs": (1 << 63) - 1, "MultNum": 1, "MultDen": 1, "RandNum": 1, "RandDen": 2, "MaxRetries": 0},
+     "UseCloser": True, "StartClosed": False, "StartCancelled": False, "flavour": "next",
+     "Ops": [{"K": "n", "Us": 0}, {"K": "nc", "Us": 30000}, {"K": "n", "Us": 0}]},
+    {"Opts": {"InitialNs": (1 << 63) - 1, "MaxNs": (1 << 63) - 1, "MultNum": 2, "MultDen": 1, "RandNum": 3, "RandDen": 20, "MaxRetries": 0},
+     "UseCloser": True, "StartClosed": False, "StartCancelled": False, "flavour": "next",
+     "Ops": [{"K": "n", "Us": 0}, {"K": "nx", "Us": 30000}, {"K": "n", "Us": 0}]},
+    {"Opts": {"InitialNs": (1 << 63) - 1, "MaxNs": (1 << 63) - 1, "MultNum": 1, "MultDen": 1, "RandNum": 0, "RandDen": 1, "MaxRetries": 0},
+     "UseCloser": True, "StartClosed": False, "StartCancelled": False, "flavour": "next",
+     "Ops": [{"K": "n", "Us": 0}, {"K": "nc", "Us": 30000}, {"K": "n", "Us": 0}]},
+    {"Opts": {"InitialNs": (1 << 63) - 1, "MaxNs": (1 << 63) - 1, "MultNum": 2, "MultDen": 1, "RandNum": 1, "RandDen": 2, "MaxRetries": 0},
+     "UseCloser": True, "StartClosed": False, "StartCancelled": False, "flavour": "next",
+     "Ops": [{"K": "n", "Us": 0}, {"K": "nx", "Us": 30000}, {"K": "n", "Us": 0}]},
+    {"Opts": {"InitialNs": (1 << 63) - 1, "MaxNs": (1 << 63) - 1, "MultNum": 2, "MultDen": 1, "RandNum": 0, "RandDen": 1, "MaxRetries": 0},
+     "UseCloser": True, "StartClosed": False, "StartCancelled": False, "flavour": "next",
+     "Ops": [{"K": "n", "Us": 0}, {"K": "nc", "Us": 30000}, {"K": "n", "Us": 0}]},
     # closer closed before Start
     {"Opts": {"InitialNs": 5 * MS, "MaxNs": 20 * MS, "MultNum": 2, "MultDen": 1, "RandNum": 3, "RandDen": 20, "MaxRetries": 0},
      "UseCloser": True, "StartClosed": True, "StartCancelled": False, "flavour": "next",
@@ -304,16 +324,6 @@ def eval_script(model, sc, res):
     return ev
 
 
-def select_race_suspect(ev):
-    """A Next entered after the stop came back true: either a defect (then it does so every time)
-    or Go's select found the timer ready as well because the goroutine was held up between
-    time.After and the select for longer than the delay (the assumption behind `next`'s halted
-    branch; happens about once in 10^4 scripts with millisecond delays under load)."""
-    if ev["bad"] and "impl t, model f" in ev["bad"]:
-        return True
-    return bool(ev["tags"]) and ev["tags"].get("clause") == "afterStop" and not ev["tags"].get("pendingReset")
-
-
 def check_scripts(rep, impl, model, scripts, parallel):
     """returns (kdis, ofail, inconclusive)"""
     kdis, ofail, inconcl = [], [], 0
@@ -339,17 +349,6 @@ def check_scripts(rep, impl, model, scripts, parallel):
             if any(op["K"] in ("nc", "nx") for op in sc["Ops"]):
                 rep.count("stop-during-wait")
             ev = eval_script(model, sc, res)
-            if select_race_suspect(ev):
-                # a defect reproduces; a scheduling race does not
-                again = []
-                for _ in range(3):
-                    o2 = impl.call("retryScripts", Scripts=[w], Parallel=1)
-                    r2 = (o2.get("res") or [[]])[0] if isinstance(o2, dict) else []
-                    again.append(select_race_suspect(eval_script(model, sc, r2)))
-                if not all(again):
-                    rep.count("select-race-not-reproduced (timer ready at a select entered after the stop)")
-                    inconcl += 1
-                    continue
             if ev["inconclusive"]:
                 inconcl += 1
                 rep.count("inconclusive-stop-missed-its-wait")
@@ -385,16 +384,6 @@ def check_wma(rep, impl, model, cases, parallel):
             fl = "%d%d" % (1 if c["StartClosed"] else 0, 1 if c["StartCancelled"] else 0)
             m = model.ask("C17 wma %s %d %s %s" % (opt_tokens(c["Opts"]), c["N"], fl, ",".join(wma_env(c))))
             got = "%d %s %d" % (r["calls"], "nil" if r["nil"] else "err", 1 if r["succeeded"] else 0)
-            if got != m and not (r.get("hang") or r.get("panic")) and r["calls"] == int(m.split(" ")[0]) + 1:
-                # one call more than the model: defect, or the same select race as in the loops
-                again = []
-                for _ in range(3):
-                    o2 = impl.call("retryWMA", Cases=[c], Parallel=1)
-                    r2 = (o2.get("res") or [{}])[0] if isinstance(o2, dict) else {}
-                    again.append("%s %s %d" % (r2.get("calls"), "nil" if r2.get("nil") else "err", 1 if r2.get("succeeded") else 0) != m)
-                if not all(again):
-                    rep.count("select-race-not-reproduced (timer ready at a select entered after the stop)")
-                    continue
             if r.get("hang") or r.get("panic") or got != m:
                 kdis.append({"case": txt, "impl": r, "model": m})
             if r.get("hang") or c["N"] <= 0:
@@ -420,7 +409,7 @@ def run(tier, seed):
     rep = Report(PROP, tier, seed, "proof")
     rep.assumptions = [
         "floating point (float64 products, math.Pow, rand.Float64) is idealised as exact rational arithmetic with a draw u in [0,1); the check compares with relative tolerance 1e-6",
-        "Go's select: a closer / context that has already fired wins against a timer that is not yet due (model: `next` returns halted when stopped); needs a positive delay (theorem delay_pos) that is longer than the time the goroutine takes from time.After to the select — when it is held up for longer, select may pick the timer; such a run is recognised by not reproducing and is counted, not judged",
+        "Go's select: a closer / context that has already fired when Next is entered wins (since bee36b3 Next tests both before it waits; model: `next` returns halted when stopped); a stop that falls *inside* a wait races with the timer, and is judged only when it was issued well before the model's shortest delay",
         "time.After(d) never delivers before d; measured gaps are used only as lower bounds, so upper edges of the band (MaxBackoff cap, +r) are shown on the model only",
         "NextCh leaves watching the closer / context to its caller; the stop clause is checked for Next only",
         "option sets with non-negative back-offs, multiplier and randomisation factor; r <= 1 for the whole-nanosecond statements"]
